@@ -3,6 +3,8 @@ import SasLexer.Properties.C03
 import SasLexer.Proofs.Kernel.Mono
 import SasLexer.Properties.C19
 import SasLexer.Proofs.Model.DiscTop
+import SasLexer.Proofs.Model.CoverTop
+import SasLexer.Properties.C04
 /-!
 # C02 — tokens tile the source and end in a single EOF: theorems
 
@@ -20,8 +22,13 @@ scanning-discipline pass `Proofs/Model/Disc*.lean`): whenever the model returns 
 list is `pre ++ [eof]` with `eof` of type `EOF` at byte `utf8Len s` / char `s.length` and no `EOF` in `pre`,
 i.e. the clause `single-final-eof` of `Spec.C02` holds.
 
-Not proved (model level, `_partial`): "first token at the BOM end" and totality (C01: the model returns,
-i.e. no panic / fuel exhaustion); they are decided per run by `Spec.C02` on implementation dumps plus
+Proved likewise (`model_first_at_bom`, from the second discipline `cwp` of `Proofs/Model/Cover*.lean`: the open-code
+dispatcher, entered on the initial state, always leaves a token that starts where it was entered; afterwards the
+oldest token never moves — `run_KOld`, for every program): the first token starts at the end of the BOM.
+`C02_model` collects every clause of `Spec.C02` except the one about payload slices (debug profile).
+
+Not proved: totality (C01: the model returns, i.e. no panic / fuel exhaustion / budget) — a hypothesis of the
+model theorems; for the implementation everything is decided per run by `Spec.C02` on implementation dumps plus
 model/implementation correspondence.
 -/
 namespace SasLexer
@@ -85,5 +92,78 @@ theorem C02_model_single_eof (cfg : Cfg) (s : List Char) (h : (lexProgram cfg s)
     intro t ht
     simpa using hpre t ht
   simp [this, hty]
+
+theorem length_le_utf8Len_c02 (s : List Char) : s.length ≤ utf8Len s := by
+  induction s with
+  | nil => simp [utf8Len]
+  | cons c t ih =>
+    simp only [List.length_cons, utf8Len]
+    have : 1 ≤ c.utf8Size := Char.utf8Size_pos c
+    omega
+
+theorem byte_of_bomChars {s : List Char} {b c : Nat} (h : PosPair s b c) (hc : c = bomChars s) : b = bomLen s := by
+  obtain ⟨pre, suf, hs, hb, hcl⟩ := h
+  subst hb
+  unfold bomChars at hc; unfold bomLen
+  cases s with
+  | nil =>
+    have : pre = [] := by
+      cases pre with
+      | nil => rfl
+      | cons a b => simp at hs
+    subst this; simp [utf8Len]
+  | cons d t =>
+    by_cases hd : d = BOM
+    · subst hd
+      simp only [if_true] at hc ⊢
+      cases pre with
+      | nil => simp at hcl; omega
+      | cons p ps =>
+        simp only [List.cons_append, List.cons.injEq] at hs
+        have : ps = [] := by
+          cases ps with
+          | nil => rfl
+          | cons a b => simp at hcl; omega
+        subst this
+        rw [← hs.1]; decide
+    · simp only [hd, if_false] at hc ⊢
+      have : pre = [] := by
+        cases pre with
+        | nil => rfl
+        | cons a b => simp at hcl; omega
+      subst this; simp [utf8Len]
+
+/-- **C02 for the modelled lexer, every input** (debug profile; all clauses of `Spec.C02` except the one about
+payload slices): the token list is non-empty, its first token starts at the end of the BOM, start offsets
+never decrease and are character boundaries, there is exactly one `EOF`, it is last and sits at the end of the
+text — hence the raw texts of the tokens tile the source. -/
+theorem C02_model (cfg : Cfg) (hd : cfg.debug = true) (s : List Char) (hlen : utf8Len s < 4294967296)
+    (hend : (lexProgram cfg s).ending = some .eof) :
+    (lexProgram cfg s).buf.toks ≠ [] ∧
+    ((lexProgram cfg s).buf.toks.map (·.byte)).head? = some (bomLen s) ∧
+    (∀ i x y, (lexProgram cfg s).buf.toks[i]? = some x → (lexProgram cfg s).buf.toks[i + 1]? = some y → x.byte ≤ y.byte) ∧
+    (∀ t ∈ (lexProgram cfg s).buf.toks, (charIdxOfByte s t.byte).isSome) ∧
+    (((lexProgram cfg s).buf.toks.filter (·.ty == .EOF)).length = 1 ∧
+      ∃ t, (lexProgram cfg s).buf.toks.getLast? = some t ∧ t.ty = .EOF ∧ t.byte = utf8Len s) := by
+  have hl : s.length < 4294967296 := Nat.lt_of_le_of_lt (length_le_utf8Len_c02 s) hlen
+  obtain ⟨t0, ht0, hst0⟩ := model_first_at_bom cfg s hl hend
+  obtain ⟨_, htoks, _⟩ := model_lines_exact cfg s hend
+  have hmono := model_tokMono_debug cfg hd s hend
+  refine ⟨?_, ?_, ?_, ?_, C02_model_single_eof cfg s hend⟩
+  · intro e; rw [e] at ht0; simp at ht0
+  · rw [List.head?_map, ht0]
+    simp only [Option.map_some, Option.some.injEq]
+    exact byte_of_bomChars (htoks t0 (List.mem_of_mem_head? ht0)).1 hst0
+  · intro i x y hx hy
+    have := hmono i x y hx hy
+    have px := (htoks x (List.mem_of_getElem? hx)).1
+    have py := (htoks y (List.mem_of_getElem? hy)).1
+    have := posPair_lt_iff py px
+    by_cases hlt : y.byte < x.byte
+    · have := this.1.1 hlt; omega
+    · omega
+  · intro t ht
+    exact charIdxOfByte_of_posPair (htoks t ht).1 ▸ rfl
+
 
 end SasLexer
